@@ -263,6 +263,10 @@ func mutate(class string, seed int64, orig []byte, other func(r *rand.Rand) []by
 		}
 		v := vs[r.Intn(len(vs))]
 		return append(append(clone(orig[:v[0]]), ins...), orig[v[1]:]...)
+	case "zipwrap":
+		return zipWrap(r, orig, other)
+	case "zipmem":
+		return zipMember(r, orig, other)
 	case "rand":
 		out := make([]byte, r.Intn(4097))
 		r.Read(out)
